@@ -16,13 +16,13 @@ import (
 )
 
 const ruleC25 = "rapid state machine: 3 accounts, 3 storage target paths, 3 public paths, 2 inbox names, 10 borrow types (&S, &{I}, auth(E) &S, &R, " +
-	"&AnyStruct, &S2 (unrelated), auth(E) &{I}, &AnyResource, &Account, auth(Storage) &Account); 8..50 actions (storage/account issue, getController, " +
+	"&AnyStruct, &S2 (unrelated), auth(E) &{I}, &AnyResource, &Account, auth(Storage) &Account); 20..44 actions (storage/account issue, getController, " +
 	"getControllers, forEachController (full / early stop), retarget, setTag, delete, publish, unpublish, capabilities.get/borrow/exists, borrow/check on " +
 	"capabilities retained in storage, inbox publish/unpublish/claim, save/load at target paths), 1-5 per transaction, 8% aborted; after every " +
 	"transaction a script reads back every controller by ID, the per-path controller sets, get/borrow of every published capability with all 10 types " +
 	"and check<T> of every retained capability with all 10 types; both engines; expectations from a Go controller model with a hand-written " +
 	"subtype/authorization table. One evaluation = one history on both engines. Non-trivial: the history has a retarget that moves a controller followed " +
-	"by a delete, an upcasting borrow that succeeds, a borrow with an unrelated type, and a target path whose value was unloaded/replaced; distinct by hash " +
+	"by a delete, an upcasting borrow/check that succeeds and one with an unrelated type (in a transaction or in the read-back script), and a target path whose value was unloaded/replaced; distinct by hash " +
 	"of all transaction sources."
 
 // normalise sorts every maximal run of "~" lines (unordered blocks).
@@ -170,7 +170,7 @@ func newCapHost(eng host.Engine) (*host.Host, error) {
 func TestC25(t *testing.T) {
 	rec := evid.Start(t, "C25", ruleC25)
 	rapid.Check(t, func(rt *rapid.T) {
-		hist := capgen.GenCapHistory(rapidChooser{rt}, capgen.CapGenOptions{MaxActions: 50})
+		hist := capgen.GenCapHistory(rapidChooser{rt}, capgen.CapGenOptions{MaxActions: 44})
 		var signers []common.Address
 		for _, a := range hist.Accts {
 			signers = append(signers, host.Addr(uint64(a)))
@@ -209,6 +209,9 @@ func TestC25(t *testing.T) {
 				}
 				rec.Class("op:" + a.Op)
 			}
+			for f := range st.VerifyFlags {
+				flags["verify:"+f] = true
+			}
 			if st.Decisive > 0 {
 				flags["verify:controller-type-check-decisive"] = true
 			}
@@ -233,7 +236,9 @@ func TestC25(t *testing.T) {
 		if retargetThenDelete {
 			rec.Class("hist:retarget-then-delete")
 		}
-		nt := retargetThenDelete && flags["borrow:upcast-ok"] && flags["borrow:unrelated-type"] && flags["target-unloaded"]
+		upcast := flags["borrow:upcast-ok"] || flags["verify:borrow:upcast-ok"]
+		unrelated := flags["borrow:unrelated-type"] || flags["verify:borrow:unrelated-type"]
+		nt := retargetThenDelete && upcast && unrelated && flags["target-unloaded"]
 		rec.Case(nt, key.String())
 		if nt && rec.WantSample("nontrivial") {
 			rec.Sample("nontrivial", hist.Steps[len(hist.Steps)-1].Tx)
